@@ -1,8 +1,11 @@
 pub mod common;
 pub mod c01;
 pub mod c02;
+pub mod c06;
+pub mod c07;
 pub mod c10;
 pub mod c11;
+pub mod c12;
 pub mod c13;
 pub mod c16;
 pub mod c18;
@@ -32,8 +35,11 @@ macro_rules! props {
 props! {
     "C01" => c01,
     "C02" => c02,
+    "C06" => c06,
+    "C07" => c07,
     "C10" => c10,
     "C11" => c11,
+    "C12" => c12,
     "C13" => c13,
     "C16" => c16,
     "C18" => c18,
